@@ -21,7 +21,7 @@
   terminator, exactly `L + 1` bytes are written (everything behind them is
   unchanged, and a buffer of exactly `L + 1` bytes suffices).
 -/
-import IgrisModel.C07.Lemmas
+import IgrisModel.C07.Lemmas3
 namespace Igris.C07
 open Igris.Proto
 
@@ -523,5 +523,253 @@ theorem atolOrig_longmin_witness :
     atol [0x2D#8, 0x39#8, 0x32#8, 0x32#8, 0x33#8, 0x33#8, 0x37#8, 0x32#8, 0x30#8, 0x33#8, 0x36#8, 0x38#8,
           0x35#8, 0x34#8, 0x37#8, 0x37#8, 0x35#8, 0x38#8, 0x30#8, 0x38#8, 0#8] = some (BitVec.ofInt 64 (-9223372036854775808)) := by
   decide
+
+
+/-! # Extension round 3 -/
+
+/-! ## H. how long the text is, exactly; the buffer every routine needs -/
+
+/-- the number of digits, characterised exactly: at most `k+1` digits iff `n < b^(k+1)` -/
+theorem digits_length_le_iff (b k n : Nat) (hb : 2 ≤ b) : (digits b n).length ≤ k + 1 ↔ n < b ^ (k + 1) :=
+  digits_length_le_iff' hb k n
+
+/-- exactly `k+1` digits iff `b^k ≤ n < b^(k+1)` (one digit iff `n < b`): every power of the
+    base is a length boundary of the text, and there are no others -/
+theorem digits_length_eq_iff (b k n : Nat) (hb : 2 ≤ b) :
+    (digits b n).length = k + 1 ↔ (k = 0 ∨ b ^ k ≤ n) ∧ n < b ^ (k + 1) :=
+  digits_length_eq_iff' hb k n
+
+/-- for a `(w+1)`-bit type the longest text in any base is that of the minimum (signed:
+    `-2^w`) and of the maximum (unsigned: `2^(w+1) - 1`) — for ALL values of the type -/
+theorem toa_longest_text (w : Nat) (num : BitVec (w + 1)) (b : Nat) (hb : 2 ≤ b) :
+    (canonInt false b num.toInt).length ≤ (canonInt false b (-(2 ^ w : Int))).length ∧
+    (canonNat true b num.toNat).length ≤ (canonNat true b (2 ^ (w + 1) - 1)).length := by
+  have h1 := @BitVec.toInt_lt (w + 1) num
+  have h2 := @BitVec.le_toInt (w + 1) num
+  simp only [Nat.add_sub_cancel] at h1 h2
+  exact ⟨longest_signed false hb w num.toInt h2 h1, longest_unsigned true hb (w + 1) num.toNat num.isLt⟩
+
+/-- bytes written (text + NUL) by width, any base ≥ 2: at most `bits + 2` for the signed and
+    `bits + 1` for the unsigned routines — 10/9, 18/17, 34/33, 66/65 bytes for 8..64 bit -/
+theorem toa_bytes_by_width (w : Nat) (num : BitVec (w + 1)) (b : Nat) (hb : 2 ≤ b) :
+    (canonInt false b num.toInt).length + 1 ≤ (w + 1) + 2 ∧
+    (canonNat true b num.toNat).length + 1 ≤ (w + 1) + 1 := by
+  have h1 := @BitVec.toInt_lt (w + 1) num
+  have h2 := @BitVec.le_toInt (w + 1) num
+  simp only [Nat.add_sub_cancel] at h1 h2
+  have hcast : ((2 ^ w : Nat) : Int) = (2 : Int) ^ w := by norm_cast
+  have hp : 0 < 2 ^ w := Nat.two_pow_pos w
+  have hna : num.toInt.natAbs < 2 ^ (w + 1) := by rw [Nat.pow_succ]; omega
+  have l1 := lsd_length_le hb (w + 1) num.toInt.natAbs hna
+  have l2 := lsd_length_le hb (w + 1) num.toNat num.isLt
+  rw [canonInt_length, canonNat_length]
+  simp only [digits, List.length_reverse]
+  constructor
+  · split <;> omega
+  · omega
+
+/-- ... and the bound is attained in base 2 by the minimum / the maximum: sign + `bits`
+    binary digits + NUL — it cannot be lowered -/
+theorem toa_bytes_bound_attained (w : Nat) :
+    (canonInt false 2 (-(2 ^ w : Int))).length + 1 = (w + 1) + 2 ∧
+    (canonNat true 2 (2 ^ (w + 1) - 1)).length + 1 = (w + 1) + 1 := by
+  have hcast : ((2 ^ w : Nat) : Int) = (2 : Int) ^ w := by norm_cast
+  have hp : 0 < 2 ^ w := Nat.two_pow_pos w
+  have hn : (-(2 ^ w : Int)).natAbs = 2 ^ w := by omega
+  have hneg : (-(2 ^ w : Int)) < 0 := by omega
+  have e1 : (digits 2 (2 ^ w)).length = w + 1 :=
+    (digits_length_eq_iff' (by omega) w (2 ^ w)).2 ⟨Or.inr (Nat.le_refl _), by rw [Nat.pow_succ]; omega⟩
+  have e2 : (digits 2 (2 ^ (w + 1) - 1)).length = w + 1 :=
+    (digits_length_eq_iff' (by omega) w (2 ^ (w + 1) - 1)).2
+      ⟨Or.inr (by rw [Nat.pow_succ]; omega), by have := Nat.two_pow_pos (w + 1); omega⟩
+  rw [canonInt_length, canonNat_length, hn, e1, e2, if_pos hneg]
+  omega
+
+/-- the longest DECIMAL texts of the eight kinds: "-128" 4, "-32768" 6, "-2147483648" 11,
+    "-9223372036854775808" 20 characters; "255" 3, "65535" 5, "4294967295" 10,
+    "18446744073709551615" 20 -/
+theorem toa_decimal_longest :
+    (canonInt false 10 (-(2 ^ 7 : Int))).length = 4 ∧ (canonInt false 10 (-(2 ^ 15 : Int))).length = 6 ∧
+    (canonInt false 10 (-(2 ^ 31 : Int))).length = 11 ∧ (canonInt false 10 (-(2 ^ 63 : Int))).length = 20 ∧
+    (canonNat true 10 (2 ^ 8 - 1)).length = 3 ∧ (canonNat true 10 (2 ^ 16 - 1)).length = 5 ∧
+    (canonNat true 10 (2 ^ 32 - 1)).length = 10 ∧ (canonNat true 10 (2 ^ 64 - 1)).length = 20 := by
+  have e (k n : Nat) (h : (k = 0 ∨ 10 ^ k ≤ n) ∧ n < 10 ^ (k + 1)) : (digits 10 n).length = k + 1 :=
+    (digits_length_eq_iff' (by omega) k n).2 h
+  refine ⟨?_, ?_, ?_, ?_, ?_, ?_, ?_, ?_⟩
+  · rw [canonInt_length]; rw [show (-(2 ^ 7 : Int)).natAbs = 128 by decide, e 2 128 (by decide)]; decide
+  · rw [canonInt_length]; rw [show (-(2 ^ 15 : Int)).natAbs = 32768 by decide, e 4 32768 (by decide)]; decide
+  · rw [canonInt_length]; rw [show (-(2 ^ 31 : Int)).natAbs = 2147483648 by decide, e 9 2147483648 (by decide)]; decide
+  · rw [canonInt_length]; rw [show (-(2 ^ 63 : Int)).natAbs = 9223372036854775808 by decide, e 18 9223372036854775808 (by decide)]; decide
+  · rw [canonNat_length, e 2 (2 ^ 8 - 1) (by decide)]
+  · rw [canonNat_length, e 4 (2 ^ 16 - 1) (by decide)]
+  · rw [canonNat_length, e 9 (2 ^ 32 - 1) (by decide)]
+  · rw [canonNat_length, e 19 (2 ^ 64 - 1) (by decide)]
+
+/-- vt100_left never needs more than 15 bytes: ESC [ -2147483648 D NUL -/
+theorem vt100_left_bytes_le_15 (arg : BitVec 32) : (canonInt false 10 arg.toInt).length + 4 ≤ 15 := by
+  have h := (toa_longest_text 31 arg 10 (by omega)).1
+  have := toa_decimal_longest.2.2.1
+  omega
+
+/-! ## I. the parsers on EVERY input (grammar: the longest prefix of digits of the base) -/
+
+/-- igris_atou64 / igris_atou32 on any memory `m` (from `buf` to the end of the object): the
+    routine reads outside the object iff every byte of it is a digit of the base; otherwise the
+    value is the positional value of the longest digit prefix modulo 2^width and `*end` is its
+    length.  `isDigitOf`, `numberPrefix`, `prefixValue` are list operations over the two
+    alphabets (Spec.lean). -/
+theorem atou64_grammar (m : List Byte) (base : BitVec 8) :
+    atou64 m 0 base
+      = if m.all (isDigitOf base.toNat) then none
+        else some (BitVec.ofNat 64 (prefixValue base.toNat m), (numberPrefix base.toNat m).length) := by
+  simp only [atou64, List.drop_zero, atou_grammar]
+  split <;> simp [ofNat_mod 64]
+
+theorem atou32_grammar (m : List Byte) (base : BitVec 8) :
+    atou32 m 0 base
+      = if m.all (isDigitOf base.toNat) then none
+        else some (BitVec.ofNat 32 (prefixValue base.toNat m), (numberPrefix base.toNat m).length) := by
+  simp only [atou32, List.drop_zero, atou_grammar]
+  split <;> simp [ofNat_mod 32]
+
+/-- the signed parsers: exactly one leading `'-'` is a sign (the value is negated in the unsigned
+    type, `*end` counts it); anything else — `'+'`, a blank, a second `'-'` — is not part of a number -/
+theorem atoi64_grammar (c : Byte) (s : List Byte) (base : BitVec 8) :
+    atoi64 (c :: s) base
+      = if c = 0x2D#8 then
+          (if s.all (isDigitOf base.toNat) then none
+           else some (-(BitVec.ofNat 64 (prefixValue base.toNat s)), (numberPrefix base.toNat s).length + 1))
+        else atou64 (c :: s) 0 base := by
+  by_cases hc : c = 0x2D#8
+  · subst hc
+    have : (0x2D#8 == 0x2D#8) = true := by decide
+    simp only [atoi64, List.getElem?_cons_zero, this, if_true, atou64, List.drop_succ_cons, List.drop_zero,
+      atou_grammar_pos]
+    split <;> simp [ofNat_mod 64, Nat.add_comm]
+  · have : (c == 0x2D#8) = false := by simpa using hc
+    simp only [atoi64, List.getElem?_cons_zero, this, Bool.false_eq_true, if_false, hc]
+    cases atou64 (c :: s) 0 base <;> simp
+
+theorem atoi32_grammar (c : Byte) (s : List Byte) (base : BitVec 8) :
+    atoi32 (c :: s) base
+      = if c = 0x2D#8 then
+          (if s.all (isDigitOf base.toNat) then none
+           else some (-(BitVec.ofNat 32 (prefixValue base.toNat s)), (numberPrefix base.toNat s).length + 1))
+        else atou32 (c :: s) 0 base := by
+  by_cases hc : c = 0x2D#8
+  · subst hc
+    have : (0x2D#8 == 0x2D#8) = true := by decide
+    simp only [atoi32, List.getElem?_cons_zero, this, if_true, atou32, List.drop_succ_cons, List.drop_zero,
+      atou_grammar_pos]
+    split <;> simp [ofNat_mod 32, Nat.add_comm]
+  · have : (c == 0x2D#8) = false := by simpa using hc
+    simp only [atoi32, List.getElem?_cons_zero, this, Bool.false_eq_true, if_false, hc]
+    cases atou32 (c :: s) 0 base <;> simp
+
+/-- totality: on a NUL-terminated string (a NUL anywhere in the object) no parser ever reads
+    outside the object, whatever the bytes and the base -/
+theorem ato_total_on_c_strings (m : List Byte) (base : BitVec 8) (h : 0#8 ∈ m) :
+    (atou64 m 0 base).isSome ∧ (atou32 m 0 base).isSome ∧ (atoi64 m base).isSome ∧ (atoi32 m base).isSome := by
+  have hb : base.toNat ≤ 255 := by have := base.isLt; omega
+  have hall : ∀ l : List Byte, 0#8 ∈ l → l.all (isDigitOf base.toNat) = false := by
+    intro l hl
+    rw [Bool.eq_false_iff]; intro hc
+    have := List.all_eq_true.1 hc 0#8 hl
+    rw [isDigitOf_nul _ hb] at this; exact absurd this (by decide)
+  have h64 : (atou64 m 0 base).isSome := by rw [atou64_grammar, hall m h]; simp
+  have h32 : (atou32 m 0 base).isSome := by rw [atou32_grammar, hall m h]; simp
+  refine ⟨h64, h32, ?_, ?_⟩
+  · cases m with
+    | nil => simp at h
+    | cons c s =>
+      rw [atoi64_grammar]
+      by_cases hc : c = 0x2D#8
+      · have hs : 0#8 ∈ s := by
+          rcases List.mem_cons.1 h with h0 | h0
+          · subst hc; exact absurd h0 (by decide)
+          · exact h0
+        simp [hc, hall s hs]
+      · simp only [hc, if_false]; exact h64
+  · cases m with
+    | nil => simp at h
+    | cons c s =>
+      rw [atoi32_grammar]
+      by_cases hc : c = 0x2D#8
+      · have hs : 0#8 ∈ s := by
+          rcases List.mem_cons.1 h with h0 | h0
+          · subst hc; exact absurd h0 (by decide)
+          · exact h0
+        simp [hc, hall s hs]
+      · simp only [hc, if_false]; exact h32
+
+/-- non-canonical inputs, every base: the empty number is 0 with `*end = buf`; a lone `'-'` is 0
+    with `*end` behind it; `'+'`, a blank and a second `'-'` are not accepted (0, nothing or only
+    the sign consumed) -/
+theorem ato_noncanonical_inputs (base : BitVec 8) (rest : List Byte) :
+    atou64 (0#8 :: rest) 0 base = some (0#64, 0) ∧
+    atoi64 (0x2D#8 :: 0#8 :: rest) base = some (0#64, 1) ∧
+    atoi64 (0x2B#8 :: rest) base = some (0#64, 0) ∧
+    atou64 (0x2B#8 :: rest) 0 base = some (0#64, 0) ∧
+    atoi64 (0x20#8 :: rest) base = some (0#64, 0) ∧
+    atoi64 (0x2D#8 :: 0x2D#8 :: rest) base = some (0#64, 1) := by
+  have hb : base.toNat ≤ 255 := by have := base.isLt; omega
+  have nd : ∀ c : Byte, digitValue c = 255 → isDigitOf base.toNat c = false := by
+    intro c hc; rw [isDigitOf_iff _ hb, hc]; simp; omega
+  have h0 := nd 0#8 (by decide)
+  have hplus := nd 0x2B#8 (by decide)
+  have hsp := nd 0x20#8 (by decide)
+  have hmin := nd 0x2D#8 (by decide)
+  refine ⟨?_, ?_, ?_, ?_, ?_, ?_⟩
+  · simp [atou64_grammar, h0, prefixValue, numberPrefix, ofDigits]
+  · simp [atoi64_grammar, h0, prefixValue, numberPrefix, ofDigits]
+  · rw [atoi64_grammar]; simp [atou64_grammar, hplus, prefixValue, numberPrefix, ofDigits]
+  · simp [atou64_grammar, hplus, prefixValue, numberPrefix, ofDigits]
+  · rw [atoi64_grammar]; simp [atou64_grammar, hsp, prefixValue, numberPrefix, ofDigits]
+  · simp [atoi64_grammar, hmin, prefixValue, numberPrefix, ofDigits]
+
+/-- leading zeros are digits: they are consumed and do not change the value -/
+theorem ato_leading_zeros (b k : Nat) (hb : 1 ≤ b) (s : List Byte) :
+    prefixValue b (List.replicate k 0x30#8 ++ s) = prefixValue b s ∧
+    (numberPrefix b (List.replicate k 0x30#8 ++ s)).length = k + (numberPrefix b s).length := by
+  have hz : isDigitOf b 0x30#8 = true := by
+    have : charDigit 0x30#8 = some 0 := by decide
+    simp [isDigitOf, this]; omega
+  have hp : numberPrefix b (List.replicate k 0x30#8 ++ s) = List.replicate k 0x30#8 ++ numberPrefix b s := by
+    induction k with
+    | zero => simp
+    | succ k ih =>
+      simp only [List.replicate_succ, List.cons_append, numberPrefix, List.takeWhile_cons, hz, if_true] at ih ⊢
+      rw [ih]
+  constructor
+  · have hf : ∀ j : Nat, (List.replicate j 0x30#8).filterMap charDigit = List.replicate j 0 := by
+      intro j
+      induction j with
+      | zero => rfl
+      | succ j ih =>
+        have : charDigit 0x30#8 = some 0 := by decide
+        simp only [List.replicate_succ, List.filterMap_cons, this, ih]
+    rw [prefixValue, hp, List.filterMap_append, hf, ofDigits_leading_zeros, prefixValue]
+  · rw [hp]; simp
+
+/-- the 8/16-bit signed parsers on any digit string (audit F6): the 32-bit result narrowed -/
+theorem atoi16_atoi8_digit_string (base : BitVec 8) (chars : List Byte) (t : Byte) (rest : List Byte)
+    (h : ∀ c ∈ chars, digitValue c < base.toNat) (ht : ¬ digitValue t < base.toNat) :
+    atoi16 (0x2D#8 :: chars ++ t :: rest) base
+      = some (-(BitVec.ofNat 16 (ofDigits base.toNat (chars.map digitValue))), chars.length + 1) ∧
+    atoi8 (0x2D#8 :: chars ++ t :: rest) base
+      = some (-(BitVec.ofNat 8 (ofDigits base.toNat (chars.map digitValue))), chars.length + 1) := by
+  constructor
+  · rw [atoi16, atoi32_digit_string base chars t rest h ht]
+    simp only [Option.map_some, BitVec.truncate_eq_setWidth]
+    congr 2
+    apply BitVec.eq_of_toNat_eq
+    simp [BitVec.toNat_neg]
+  · rw [atoi8, atoi32_digit_string base chars t rest h ht]
+    simp only [Option.map_some, BitVec.truncate_eq_setWidth]
+    congr 2
+    apply BitVec.eq_of_toNat_eq
+    simp [BitVec.toNat_neg]
+
+example : ∃ (c : Byte), digitValue c < (10#8 : BitVec 8).toNat ∧ ¬ digitValue 0#8 < (10#8 : BitVec 8).toNat := ⟨0x35#8, by decide⟩
 
 end Igris.C07
